@@ -340,6 +340,60 @@ theorem cant_sign (w : W) (t : STxn) (idx : List Int) (ux : List Nat) :
     obtain ⟨k, hk, hk0, _⟩ := hnew i hi
     exact ⟨k, hk, hk0⟩
 
+/-- **created_sigs_verify**: in a transaction created AND signed by the wallet
+(`CreateTransactionSigned`), every input's signature verifies against the address of the output
+that input spends, over (inner hash, uxid) — whatever the order in which the chosen inputs
+revisit the wallet's addresses -/
+theorem created_sigs_verify (addrOf : Nat → Nat) (verify : Nat → Sig → Nat → Nat → Bool)
+    (hsch : SigScheme addrOf verify)
+    (entries : List Entry) (hcons : ∀ e ∈ entries, e.sec ≠ 0 → e.addr = addrOf e.sec) (inner : Nat) :
+    ∀ (ins : List (Nat × Nat)) (sigs : List Sig), signCreated entries inner ins = .ok sigs →
+      sigs.length = ins.length ∧
+      ∀ i (h : i < ins.length), ∃ s, sigs[i]? = some s ∧ verify (ins[i]).2 s inner (ins[i]).1 = true := by
+  intro ins
+  induction ins with
+  | nil => intro sigs h; simp [signCreated] at h; subst h; exact ⟨rfl, fun i hi => absurd hi (by simp)⟩
+  | cons p r ih =>
+    intro sigs h
+    obtain ⟨u, a⟩ := p
+    unfold signCreated at h
+    cases hk : keyFor entries a with
+    | none => simp [hk] at h
+    | some k =>
+      simp only [hk] at h
+      split at h; · cases h
+      rename_i hk0
+      cases hr : signCreated entries inner r with
+      | err e => simp [hr] at h
+      | panic x => simp [hr] at h
+      | ok l =>
+        simp only [hr] at h
+        injection h with h; subst h
+        obtain ⟨l1, l2⟩ := ih l hr
+        refine ⟨by simp [l1], ?_⟩
+        intro i hi
+        cases i with
+        | zero =>
+          refine ⟨_, rfl, ?_⟩
+          -- the key is the key of the entry with exactly this address
+          unfold keyFor at hk
+          cases hf : entries.find? (·.addr = a) with
+          | none => rw [hf] at hk; cases hk
+          | some e =>
+            rw [hf] at hk
+            have hke : e.sec = k := by simpa using hk
+            have hmem := List.mem_of_find?_eq_some hf
+            have haddr : e.addr = a := by simpa using List.find?_some hf
+            show verify a (.made k inner u) inner u = true
+            rw [← haddr, hcons e hmem (by rw [hke]; exact hk0), hke]
+            exact hsch k _ _ hk0
+        | succ j =>
+          obtain ⟨s, hs1, hs2⟩ := l2 j (by simpa using hi)
+          exact ⟨s, by simpa using hs1, by simpa using hs2⟩
+
+example : signCreated [⟨11, 1⟩, ⟨12, 2⟩] 7 [(101, 11), (102, 12), (103, 11)] =
+    .ok [.made 1 7 101, .made 2 7 102, .made 1 7 103] := by decide
+
 /-! ### non-vacuity -/
 
 def exW : W := ⟨"deterministic", false, [⟨11, 1⟩, ⟨12, 2⟩]⟩
